@@ -1,6 +1,6 @@
 use std::collections::{HashMap, HashSet, VecDeque};
 
-use rusqlite::{params_from_iter, Connection};
+use rusqlite::{params_from_iter, Connection, OptionalExtension};
 use serde::{Deserialize, Serialize};
 use tokio::sync::mpsc;
 
@@ -190,6 +190,27 @@ impl DailyLogsUpdate {
             }
         }
 
+        let mut delete_empty_stmt = conn.prepare_cached(
+            "
+            DELETE FROM _daily_log 
+            WHERE
+                room_id = ? AND
+                entity = ? AND
+                date = ?
+            ",
+        )?;
+
+        let mut has_previous_stmt = conn.prepare_cached(
+            "
+            SELECT 1 FROM _daily_log 
+            WHERE
+                room_id = ? AND
+                entity = ? AND
+                date < ?
+            LIMIT 1
+            ",
+        )?;
+
         let mut previous_room: Uid = [0; 16];
         let mut previous_entity: String = "-".to_string();
         let mut previous_hash: Option<Vec<u8>> = None;
@@ -215,8 +236,17 @@ impl DailyLogsUpdate {
                     previous_hash = daily_hash;
                 } else {
                     //first selected day of this room/entity: it anchors the chain of the following days
+                    let has_previous: Option<i64> = has_previous_stmt
+                        .query_row((&room, &entity, date), |row| row.get(0))
+                        .optional()?;
+                    if has_previous.is_none() && !history_hash.eq(&daily_hash) {
+                        //the days before it have been emptied and removed: it is now the first day of the chain
+                        update_history_stmt.execute((&daily_hash, &room, &entity, date))?;
+                        previous_history = daily_hash.clone();
+                    } else {
+                        previous_history = history_hash;
+                    }
                     previous_hash = daily_hash;
-                    previous_history = history_hash;
                 }
                 previous_room = room;
                 previous_entity = entity;
@@ -231,6 +261,22 @@ impl DailyLogsUpdate {
                     let signature: Vec<u8> = comp.get(0)?;
                     hasher.update(&signature);
                     entry_number += 1;
+                }
+
+                if entry_number == 0 {
+                    //the day holds nothing anymore: a peer that never stored anything on that day has no log entry for it,
+                    //so the emptied entry is removed instead of being kept in the history chain
+                    delete_empty_stmt.execute((&room, &entity, date))?;
+                    self.add_log(DailyLog {
+                        room_id: room,
+                        entity: entity.clone(),
+                        date,
+                        entry_number,
+                        daily_hash: None,
+                        history_hash: None,
+                        need_recompute: false,
+                    });
+                    continue;
                 }
 
                 let daily_hash = if hasher.count() == 0 {
